@@ -242,3 +242,28 @@ def check(chk):
                 chk.ok('C27.raw', c, '%s: %s' % (q, src(c)), nontrivial=False)
     if n_raw < 40:
         raise AnalysisError('C27.raw: only %d identifier-quoting call sites found in metadata.py' % n_raw)
+
+    # index targets of the legacy parser: keys(<col>) / values(<col>) / full(<col>) wrap the *quoted* column name
+    chk.rule('C27.wrapped', 'a function-style index target `name(%s)` is formatted from an already quoted identifier')
+    bi = meta.func('SchemaParserV22._build_index_metadata')
+    n_w = 0
+    import re as _re
+    for n_ in body_walk(bi):
+        if isinstance(n_, ast.BinOp) and isinstance(n_.op, ast.Mod) and isinstance(n_.left, ast.Constant) and isinstance(n_.left.value, str) \
+                and _re.match(r'^\w+\(%s\)$', n_.left.value):
+            n_w += 1
+            ops = n_.right.elts if isinstance(n_.right, ast.Tuple) else [n_.right]
+            ok_ = True
+            for o in ops:
+                if isinstance(o, ast.Call) and isinstance(o.func, ast.Name) and o.func.id in ('protect_name', 'escape_name', 'maybe_escape_name'):
+                    continue
+                if isinstance(o, ast.Name):
+                    defs_ = [a.value for a in body_walk(bi) if isinstance(a, ast.Assign) and any(isinstance(t, ast.Name) and t.id == o.id for t in a.targets)]
+                    roots = [d for d in defs_ if not (isinstance(d, ast.BinOp) and isinstance(d.op, ast.Mod))]
+                    if roots and all(isinstance(d, ast.Call) and isinstance(d.func, ast.Name) and d.func.id in ('protect_name', 'escape_name', 'maybe_escape_name') for d in roots):
+                        continue
+                ok_ = False
+            chk.judge(ok_, 'C27.wrapped', n_, '%s wraps a quoted name' % src(n_)[:60],
+                      'the column name inside %s is inserted raw: a name that needs quoting (mixed case, reserved word) is emitted bare and reads back as a different identifier' % n_.left.value)
+    if n_w < 3:
+        raise AnalysisError('_build_index_metadata: keys()/values()/full() targets not found (%d)' % n_w)
